@@ -35,7 +35,8 @@ META = dict(
          'or WIDER than the bounds, noise none / 0 / scalar / per-parameter with a zero entry, n, t, optimiser end points moved '
          'outside the box with probability 1/3). BO cases = (batch_size, batches_per_acquisition, initial evidence as count / '
          'precomputed dict / 0, update_interval, acquisition class, noise, max_parallel_batches, schedule seed, readiness bias) run '
-         'under >= 2 schedules each. Non-trivial = a case with noise, an out-of-box optimiser end point, or a parallel schedule with a '
+         'under >= 2 schedules each, plus (LCBSC / Uniform) one asynchronous-acquisition run under the laziest workers with a prior wider than the bounds. '
+         ' Non-trivial = a case with noise, an out-of-box optimiser end point, or a parallel schedule with a '
          'False is_ready answer; distinct by content',
     trusted_base=['scipy L-BFGS-B end points and truncnorm draws are inputs of the model (intercepted, any value covered by the theorems)',
                   'GPy (the surrogate) is a deterministic function of the evidence sequence', 'ScheduledClient stands for every worker timing',
@@ -311,7 +312,7 @@ def gen_bo(rng, init=None):
 def run_bo(case, client, sched=None):
     calls, events = [], []
     d, bounds, b = case['dim'], case['bounds'], case['b']
-    m = make_model(d, bounds, False, calls)
+    m = make_model(d, bounds, bool(case.get('wide')), calls)
     names = ['t%d' % i for i in range(d)]
     pre = None
     if case['init'] == 'dict':
@@ -328,7 +329,7 @@ def run_bo(case, client, sched=None):
         bo = elfi.BayesianOptimization(m['d'], batch_size=b, initial_evidence=pre if pre is not None else case['n_init'],
                                        update_interval=case['update_interval'], bounds=dict(list(zip(names, bounds))[::-1] if case['seed'] % 2 else zip(names, bounds)),
                                        acq_noise_var=case['noise'], batches_per_acquisition=case['bpa'], seed=case['seed'],
-                                       max_parallel_batches=case.get('mpb', 1), pool=pool)
+                                       max_parallel_batches=case.get('mpb', 1), pool=pool, async_acq=bool(case.get('async_acq')))
         bo.target_model.max_opt_iters = 30
         prior = ModelPrior(m)
         if case['acq'] == 'uniform':
@@ -381,6 +382,13 @@ def bo_case(ctx, rng, reqs, meta, case=None):
                 c2.update(mpb=3, p_ready=0, p_eager=0)          # the laziest workers: nothing is ever ready before it is waited for
             client = ScheduledClient(random.Random(c2['sched_seed']), c2['p_ready'], c2['p_eager'], cores=2)
             runs.append((c2, run_bo(c2, client)))
+        if case['acq'] != 'randmaxvar':
+            # asynchronous acquisition under the laziest workers (several batches in flight while the run crosses from the initial
+            # evidence to acquisitions), with a prior wider than the bounds so that a prior draw is distinguishable from an acquisition
+            c3 = dict(case, mpb=3, sched_seed=rng.randrange(2**31), p_ready=rng.choice([0, 0, 0.3]), p_eager=0, async_acq=True, wide=True)
+            client = ScheduledClient(random.Random(c3['sched_seed']), c3['p_ready'], c3['p_eager'], cores=2)
+            runs.append((c3, run_bo(c3, client)))
+            ctx.count('bo.async', 'yes')
     except Timeout:
         ctx.case(case, True)
         ctx.fail_input(case, 'BayesianOptimization.fit did not return within the time limit')
@@ -426,13 +434,14 @@ def bo_case(ctx, rng, reqs, meta, case=None):
                 ctx.fail_input(c2, 'batch %d was simulated at other parameters than the surrogate was trained on' % bi)
                 return
         # 3. synchronous acquisition: same evidence as the sequential run, nothing outstanding at acquire
-        if r is not base and (r['X'].shape != base['X'].shape or not (np.array_equal(r['X'], base['X']) and np.array_equal(r['Y'], base['Y']))):
+        is_async = bool(c2.get('async_acq'))
+        if r is not base and not is_async and (r['X'].shape != base['X'].shape or not (np.array_equal(r['X'], base['X']) and np.array_equal(r['Y'], base['Y']))):
             k = next((i for i in range(min(len(r['X']), len(base['X']))) if not np.array_equal(r['X'][i], base['X'][i])), None)
             ctx.fail_input(c2, 'with synchronous acquisition the fitted evidence differs from the sequential run (first differing row %s; events %s)'
                            % (k, r['events'][:40]))
             return
         for ev in r['events']:
-            if ev[0] == 'a' and ev[3] != 0:
+            if ev[0] == 'a' and ev[3] != 0 and not is_async:
                 ctx.fail_input(c2, 'acquire(t=%d) was called with %d batch(es) still outstanding (synchronous acquisition)' % (ev[1], ev[3]))
                 return
         if r['tasks_left']:
@@ -448,7 +457,7 @@ def bo_case(ctx, rng, reqs, meta, case=None):
             meta.append(('opt', c2, opt))
         if r is not base:
             acts = ''.join('s' if e[0] == 's' else 'c' for e in r['events'] if e[0] in ('s', 'g'))
-            reqs.append(dict(op='C11.engine', nInit=n_init_batches, bpa=case['bpa'], total=nb, sync=True, mpb=c2['mpb'], acts=acts))
+            reqs.append(dict(op='C11.engine', nInit=n_init_batches, bpa=case['bpa'], total=nb, sync=not is_async, mpb=c2['mpb'], acts=acts))
             # which acquisition slice each batch ran with (by value)
             labels = []
             for bi in range(nb):
@@ -459,7 +468,7 @@ def bo_case(ctx, rng, reqs, meta, case=None):
                             if np.array_equal(x[s * b:(s + 1) * b], sim_of[bi]) and t == (bi - n_init_batches) // case['bpa'] and s == (bi - n_init_batches) % case['bpa']:
                                 lab = [t, s, evn[2]]
                 labels.append([bi, lab])
-            meta.append(('engine', c2, dict(events=[list(e) for e in r['events']], labels=labels)))
+            meta.append(('engine', c2, dict(events=[list(e) for e in r['events']], labels=labels, is_async=is_async)))
 
 
 # ------------------------------------------------------------------ C. gradients
@@ -547,7 +556,7 @@ def drive(ctx, reqs, meta):
                 ctx.corr_break('engine.schedule-rejected', case, 'the model engine cannot follow the observed schedule', real['events'][:50])
             elif m['log'] != real['events']:
                 ctx.corr_break('engine.events', case, m['log'][:50], real['events'][:50])
-            elif m['ev'] != real['labels'] or m['ev'] != m['seq']:
+            elif m['ev'] != real['labels'] or (m['ev'] != m['seq'] and not real.get('is_async')):
                 ctx.corr_break('engine.evidence', case, m['ev'], real['labels'])
         elif kind in ('lcbsc', 'maxvar'):
             val, g = real
